@@ -5,9 +5,8 @@ from harness.common import known_predicate
 @known_predicate
 def c27_flatten_of_enclosing_class_sees_sibling_order(case, what):
     """The class whose flat model differs is one that contains nested classes, and one of the classes nested in it
-    does not flatten on its own even in the unsplit library -- or looks a class up through two unqualified imports, which
-    works only the first time (C26-F5) -- so that tree.flatten succeeds or fails for the enclosing class depending on the
-    dictionary order of the nested classes; no `within` file shadows a package here."""
+    does not flatten on its own even in the unsplit library, so that tree.flatten succeeds or fails for the enclosing
+    class depending on the dictionary order of the nested classes; no `within` file shadows a package here."""
     if what not in ("flattened model differs from the unsplit library's for this file order",
                     "flattened model differs between two file orders"):
         return False
@@ -16,8 +15,6 @@ def c27_flatten_of_enclosing_class_sees_sibling_order(case, what):
         return False
     if not any(c.startswith(cls + ".") for c in case.get("classes", [])):
         return False            # only classes that contain nested classes
-    if any(r.startswith(cls + ".") for r in case.get("ref_raises", [])):
-        return True             # a nested class does not flatten on its own (C07's inherited-component lookup)
-    # or a lookup inside it goes through two unqualified imports, whose cache is poisoned by the first lookup (C26-F5):
-    # the importing package is the class itself, nested in it, or encloses it
-    return any(p == cls or p.startswith(cls + ".") or cls.startswith(p + ".") for p in case.get("multi_star_imports", []))
+    # a nested class does not flatten on its own (C07's inherited-component lookup); the second shape, through the
+    # unqualified-import cache (C26-F5), was fixed by commit 68cd940 and is not excused any more
+    return any(r.startswith(cls + ".") for r in case.get("ref_raises", []))
